@@ -63,3 +63,32 @@ lemma("before_total_on_incomparable", props=["C04"], types=PQ,
       note="structural induction on p (the least differing index is found by recursion on the tails)")
 lemma("before_transitive", props=["C04"], types={"p": "Path", "q": "Path", "r": "Path"},
       hyps="Before(p, q) and Before(q, r)", goal="Before(p, r)")
+
+# --- the predicates, as their contracts describe them, partition the ordered node pairs ------------------------------
+# Stated over the post-conditions of the real functions only (not over their bodies): for every pair of paths exactly
+# one of "same position", "n1 properly inside n2", "n2 properly inside n1", "before", "after" holds, and after is the
+# converse of before.  A change to one predicate that keeps its own clause but not the clause of its partner breaks this.
+PART = {"t": "Any", "p": "Path", "q": "Path", "b": "Bool", "a": "Bool", "i1": "Bool", "i2": "Bool", "s": "Bool",
+        "d": "Bool"}
+PART_HYPS = ("post('is_before', _=t, path_1=p, path_2=q, result=b) and "
+             "post('is_after', _=t, path_1=p, path_2=q, result=a) and "
+             "post('in_tree', _=t, path_1=p, path_2=q, result=i1) and "
+             "post('in_tree', _=t, path_1=q, path_2=p, result=i2) and "
+             "post('is_same_position', _=t, path_1=p, path_2=q, result=s) and "
+             "post('is_different_position', _=t, path_1=p, path_2=q, result=d)")
+lemma("predicates_after_is_converse", props=["C04"],
+      types={"t": "Any", "p": "Path", "q": "Path", "b": "Bool", "a": "Bool"},
+      hyps="post('is_before', _=t, path_1=q, path_2=p, result=b) and "
+           "post('is_after', _=t, path_1=p, path_2=q, result=a)",
+      goal="a == b", note="after(n1, n2) iff before(n2, n1), over the two contracts only")
+lemma("predicates_cover_every_pair", props=["C04"], types=PART,
+      uses=[("before_total_on_incomparable", {"p": "p", "q": "q"})],
+      hyps=PART_HYPS, goal="b or a or i1 or i2",
+      note="every ordered node pair is related by before, after or inside (one way or the other)")
+lemma("predicates_are_exclusive", props=["C04"], types=PART,
+      uses=[("before_excludes_prefix", {"p": "p", "q": "q"}), ("before_excludes_prefix", {"p": "q", "q": "p"}),
+            ("before_asymmetric", {"p": "p", "q": "q"})],
+      hyps=PART_HYPS,
+      goal="not (b and a) and not (b and (i1 or i2)) and not (a and (i1 or i2)) and (s == (i1 and i2)) and d == (not s)",
+      note="before / after exclude each other and exclude inside; both inside directions hold exactly at the same "
+           "position; different_position is the negation of same_position")
